@@ -178,4 +178,28 @@ def skeleton : List String :=
    "File::open", "exit:NOINPUT", "rooms::read", "exit:DATAERR",
    "exit:USAGE"]                        -- both --rooms and --rooms-file
 
+/-- the command-line definition of main.rs (clap builder calls, help texts stripped), as the
+    model's `Opts` was written against it: one entry per argument id with its builder chain.
+    Switches (`SetTrue`) are the `Bool` fields; `track`, the three field names, `rooms`,
+    `rooms_file` take one string value; `num_threads` is parsed by clap as `u32`; `INPUT` is
+    required, `OUTPUT` optional; no argument has a default, overrides or conflicts with another,
+    and the command itself has no lenient-parsing settings. `bin/gen_constants.py` re-extracts the
+    list on every run (`Const.MAIN_CLAP_SKELETON`) -/
+def clapSkeleton : List String :=
+  ["cmd: clap::command!()",
+   "cde: short('c') long(\"cde\") action(clap::ArgAction::SetTrue)",
+   "track: short('t') long(\"track\") value_name(\"TRACK_ID\")",
+   "ignore_cancelled: short('i') long(\"ignore-cancelled\") action(clap::ArgAction::SetTrue)",
+   "ignore_assigned: short('j') long(\"ignore-assigned\") action(clap::ArgAction::SetTrue)",
+   "room_factor_field: long(\"room-factor-field\") value_name(\"FIELD_NAME\")",
+   "room_offset_field: long(\"room-offset-field\") value_name(\"FIELD_NAME\")",
+   "possible_rooms_field: long(\"possible-rooms-field\") value_name(\"FIELD_NAME\")",
+   "report_no_solution: long(\"report-no-solution\") action(clap::ArgAction::SetTrue)",
+   "rooms: short('r') long(\"rooms\") value_name(\"ROOMS\")",
+   "rooms_file: long(\"rooms-file\") value_name(\"ROOM_FILE\")",
+   "num_threads: long(\"num-threads\") value_name(\"THREADS\") value_parser(clap::value_parser!(u32))",
+   "print: short('p') long(\"print\") action(clap::ArgAction::SetTrue)",
+   "INPUT: required(true) index(1)",
+   "OUTPUT: index(2) get_matches()"]
+
 end MainM
